@@ -45,9 +45,12 @@ type Op struct {
 	KS int `json:"keyset"`
 	O  int `json:"origin"`
 	B  int `json:"blind"`
+	X  int `json:"anon"` // 0: the origin's own anonymous origin id; 1: one id shared by all origins
 }
 
-func (o Op) label() string { return fmt.Sprintf("c%dk%do%db%d", o.C+1, o.KS, o.O+1, o.B+1) }
+func (o Op) label() string {
+	return fmt.Sprintf("c%dk%do%db%d%s", o.C+1, o.KS, o.O+1, o.B+1, map[int]string{0: "", 1: "x"}[o.X])
+}
 
 var seedBase int64
 
@@ -167,10 +170,11 @@ type State struct {
 	first [nOrigins][]byte // copy of the first ID observed per origin on this path
 	keptv []kept
 	last  []byte // copy of the ID returned by the last step
+	bound [nOrigins]int // which anonymous id choice (X+1) the origin was first accepted under
 }
 
 func cloneState(s *State) *State {
-	n := &State{wd: s.wd, hist: s.hist, depth: s.depth, first: s.first, last: s.last}
+	n := &State{wd: s.wd, hist: s.hist, depth: s.depth, first: s.first, last: s.last, bound: s.bound}
 	if s.cache != nil {
 		n.cache = px.NewMemCache()
 		n.cache.Puts = s.cache.Puts
@@ -224,7 +228,21 @@ func applyInner(s *State, op Op) (string, *mc.Viol) {
 		Origin:     originName(wd.ks, op.O),
 		AnonOrigin: append([]byte{}, wd.anon[op.O]...),
 	}
+	if op.X == 1 {
+		a.AnonOrigin = mc.Fill(seedBase, "anon-shared", 32)
+	}
 	out, se := wd.w.Flow(att, a)
+	// the attester binds an origin's issuer id to the first anonymous id it saw for it; a
+	// request of the same origin under the OTHER anonymous id is legitimately refused (C09's
+	// subject) and tells nothing about the ID
+	if se != nil && se.Stage == "attester-index" && s.bound[op.O] != 0 && s.bound[op.O] != op.X+1 {
+		s.hist = s.hist + op.label() + ";"
+		s.depth++
+		return "refused:origin-bound-to-the-other-anonymous-id", nil
+	}
+	if se == nil && s.bound[op.O] == 0 {
+		s.bound[op.O] = op.X + 1
+	}
 
 	class := "first-request-for-origin"
 	if s.first[op.O] != nil {
@@ -320,11 +338,93 @@ func distinctCheck(p pairP) *mc.Viol {
 	return nil
 }
 
+// ---- client key encodings: whatever spelling of the client's public key the attester
+// accepts, the ID must be the one of that client (it depends on the key, not on its bytes) ----
+
+type encCase struct {
+	C   int    `json:"client"`
+	KS  int    `json:"keyset"`
+	O   int    `json:"origin"`
+	Enc string `json:"encoding"`
+}
+
+func encodeKey(pub []byte, enc string) []byte {
+	c := elliptic.P384()
+	x, y := elliptic.UnmarshalCompressed(c, pub)
+	un := elliptic.Marshal(c, x, y) // 04 || X || Y
+	switch enc {
+	case "compressed":
+		return append([]byte{}, pub...)
+	case "uncompressed":
+		return un
+	case "hybrid":
+		h := append([]byte{}, un...)
+		h[0] = 0x06 | byte(y.Bit(0))
+		return h
+	case "compressed-with-leading-zero":
+		return append([]byte{0x00}, pub...)
+	case "compressed-with-trailing-zero":
+		return append(append([]byte{}, pub...), 0x00)
+	}
+	return nil
+}
+
+var keyEncodings = []string{"compressed", "uncompressed", "hybrid", "compressed-with-leading-zero", "compressed-with-trailing-zero"}
+
+func encCheck(k encCase) (string, *mc.Viol) {
+	wd, err := newWorld(k.C, k.KS)
+	if err != nil {
+		return "setup-fails", nil
+	}
+	mc.Entropy(fmt.Sprintf("c08-enc-%d-%d-%d-%s", k.C, k.KS, k.O, k.Enc))
+	att := type3.NewRateLimitedAttester(px.NewMemCache())
+	a := px.T3Args{Secret: append([]byte{}, wd.secret...), Blind: blind(3), Challenge: mc.Fill(seedBase, "enc-chal", 32), Nonce: mc.Fill(seedBase, "enc-nonce", 32), Origin: originName(wd.ks, k.O), AnonOrigin: wd.anon[k.O]}
+	st, err := wd.w.Create(a)
+	if err != nil {
+		return "create-fails", nil
+	}
+	reqBytes := append([]byte{}, st.Request().Marshal()...)
+	dec := new(type3.RateLimitedTokenRequest)
+	if !dec.Unmarshal(reqBytes) {
+		return "harness", nil
+	}
+	key := encodeKey(wd.pub, k.Enc)
+	var id []byte
+	var verr, ferr error
+	if p := mc.Catch(func() {
+		verr = att.VerifyRequest(*dec, a.Blind, key, a.AnonOrigin)
+		if verr != nil {
+			return
+		}
+		_, brk, e := wd.w.Issuer.Evaluate(reqBytes)
+		if e != nil {
+			ferr = e
+			return
+		}
+		id, ferr = att.FinalizeIndex(key, a.Blind, brk, a.AnonOrigin)
+	}); p != "" {
+		return "panic", nil // C03's subject
+	}
+	if verr != nil || ferr != nil {
+		if k.Enc == "compressed" {
+			return "refused", &mc.Viol{Sig: "honest type-3 flow fails with the canonical client key", What: fmt.Sprint(verr, ferr)}
+		}
+		return "encoding-refused", nil
+	}
+	if !bytes.Equal(id, wd.refID[k.O]) {
+		return "wrong-id", &mc.Viol{Sig: "ID depends on how the client key is spelled (" + k.Enc + " encoding accepted, ID differs from the client's ID)", What: fmt.Sprintf("client c%d key set %d origin o%d: got %x want %x", k.C+1, k.KS, k.O+1, id, wd.refID[k.O])}
+	}
+	return "encoding-accepted-same-id", nil
+}
+
 func newSeq(c, ks, depth int) *mc.Seq[*State, Op] {
 	var menu []Op
 	for o := 0; o < nOrigins; o++ {
 		for b := 0; b < nBlinds; b++ {
 			menu = append(menu, Op{C: c, KS: ks, O: o, B: b})
+			if b%2 == 0 {
+				menu = append(menu, Op{C: c, KS: ks, O: o, B: b, X: 1})
+			}
 		}
 	}
 	return &mc.Seq[*State, Op]{
@@ -351,6 +451,14 @@ func main() {
 		}
 		return distinctCheck(p)
 	})
+	r.RegisterReplay("keyenc", func(pj json.RawMessage) *mc.Viol {
+		var k encCase
+		if json.Unmarshal(pj, &k) != nil {
+			return nil
+		}
+		_, v := encCheck(k)
+		return v
+	})
 	if r.IsReplay() {
 		r.DoReplay()
 	}
@@ -371,6 +479,23 @@ func main() {
 	}
 	r.Par(len(combos), func(i int) {
 		newSeq(combos[i].c, combos[i].ks, depth).Run(r)
+	})
+
+	// client key encodings
+	var encs []encCase
+	for c := 0; c < nClients; c++ {
+		for ks := 0; ks < nKeySets; ks++ {
+			for _, e := range keyEncodings {
+				encs = append(encs, encCase{C: c, KS: ks, O: (c + ks) % nOrigins, Enc: e})
+			}
+		}
+	}
+	r.Par(len(encs), func(i int) {
+		o, v := encCheck(encs[i])
+		if v != nil {
+			r.Violation("keyenc", encs[i], v)
+		}
+		r.Case(fmt.Sprintf("keyenc-%+v", encs[i]), true, "key-encoding:"+o)
 	})
 
 	// pairwise distinctness of the IDs observed for the 18 (client, index key) pairs
